@@ -138,7 +138,7 @@ def main(tier):
     ck.built = built
     rnd = core.rng_for("c11", ck.seed, tier)
     combos = [(c, p) for c in gen.DECOY_CLASSES for p in POSITIONS]
-    reps = 3 if tier == "quick" else 120
+    reps = 30 if tier == "quick" else 400
     jobs = []
     n = 0
     for r in range(reps):
